@@ -740,7 +740,12 @@ pub trait ArenaFrom<T> {
 impl ArenaFrom<Integer> for Number {
     #[inline]
     fn arena_from(value: Integer, arena: &mut Arena) -> Number {
-        Number::Integer(arena_alloc!(value, arena))
+        // keep integers canonical: a value that fits a Fixnum is a Fixnum,
+        // however it was computed (e.g. 2^60 - 2^60 + 2)
+        match Fixnum::build_with_checked(&value) {
+            Ok(n) => Number::Fixnum(n),
+            Err(_) => Number::Integer(arena_alloc!(value, arena)),
+        }
     }
 }
 
